@@ -2,7 +2,7 @@
    A ModifiedPrior is an AbstractPriorModel: it has its own `_assertions` (checked first), hands
    ignore_assertions to its operand, then applies the operator.  a - b is built as a + (-b). *)
 From Coq Require Import List String Bool Arith Lia.
-From PAFC01 Require Import ModelTree Proofs6.
+From PAFC01 Require Import ModelTree Proofs8.
 From PAFC03 Require Import Model Proofs Proofs2.
 Import ListNotations.
 Local Open Scope string_scope.
